@@ -96,3 +96,38 @@ Fixpoint xtrace_violations (p : list vlabel -> bool) (l : list xcase) (k : nat) 
   | [] => []
   | x :: r => if p (xplain (xc_trace x)) then xtrace_violations p r (S k) else (k, O) :: xtrace_violations p r (S k)
   end.
+
+(* ---- the signature of recorded finding F21 (C04 at Peek / Pop granularity): the edit ADDED an entry whose first
+   occurrence sorts before the head the Peek has just seen; Pop removes that occurrence instead, MarkAsDispatched reports
+   success, the announced task runs - and its own occurrence, still pending, is announced again later under the same id
+   and runs a second time.  A duplicate start is excused only for the id of such a split call. *)
+Section Sig.
+  Variable nxt : nat -> gtime -> gtime.
+  (* after the split call the occurrence that was announced under [id] is still pending *)
+  Definition split_keeps_head (s : vsys) (id : string) (removed added : list nat) : bool :=
+    let '(s', _, _) := v_mark_disp_split nxt s id removed added in
+    existsb (fun p => match id_of (vs_ids s) (pt_ins p) with Some i => String.eqb i id | None => false end)
+            (cr_pending (vs_cron s')).
+  Fixpoint kept_heads (sc : scfg) (s : vsys) (tr : list xlabel) : list string :=
+    match tr with
+    | [] => []
+    | l :: r =>
+      match xsys_step nxt sc s l with
+      | None => []
+      | Some s' =>
+        (match l with
+         | XSplitMark _ id removed added _ (RRes ROk) => if split_keeps_head s id removed added then [id] else []
+         | _ => []
+         end) ++ kept_heads sc s' r
+      end
+    end.
+End Sig.
+Fixpoint dup_starts (seen : list string) (l : list (string * gtime * task)) : list string :=
+  match l with
+  | [] => []
+  | (id, _, _) :: r => if str_mem id seen then id :: dup_starts seen r else dup_starts (id :: seen) r
+  end.
+Definition sig_F21 (sc : scfg) (x : xcase) : bool :=
+  let dups := dup_starts [] (vstarts_of (xplain (xc_trace x))) in
+  let kept := kept_heads (nxt_of (xc_tbl x)) sc vsys_init (xc_trace x) in
+  negb (match dups with [] => true | _ => false end) && forallb (fun id => str_mem id kept) dups.
